@@ -19,7 +19,7 @@ LEVEL = "exploration"
 tiers = {
     "quick": {"runs": 12000, "chunk": 200, "wall_cap_s": 2400, "determinism_samples": 8,
               "max_minimise": 4, "minimise_budget_s": 30},
-    "thorough": {"runs": 300000, "chunk": 500, "wall_cap_s": 3300, "determinism_samples": 40,
+    "thorough": {"runs": 300000, "chunk": 500, "wall_cap_s": 7200, "determinism_samples": 40,
                  "max_minimise": 6, "minimise_budget_s": 90},
 }
 
